@@ -9,7 +9,8 @@ META = dict(
     functions=["tools.grid.enclosing_points_1d (period branch)", "interpolate.general.interpolation_weights_1d (period)",
                "tools.math.wrapped_difference", "NdInterpolator._periodic_data_interpolator / interpolate",
                "interpolate.dataset.interpolate_dataset_along_axis (direction / longitude axes, *direction* variables)",
-               "interpolate.general.interpolate_periodic (as called by interpolate_dataframe_time and Track.interpolate)"],
+               "interpolate.general.interpolate_periodic (as called by interpolate_dataframe_time and Track.interpolate)",
+               "interpolate.dataset.interpolate_at_points", "interpolate.dataarray.interpolate_track_data_arrray"],
     bounds=dict(quick="fully symbolic direction/longitude grids of 3..4 nodes with arbitrary start and every bin < 180 "
                       "degrees, any real target x (so any number of periods away) and x + 360*m for m in {1,-3} (thorough {1,-1,2,-3}); angular data on 2..3 node "
                       "grids; interpolate_periodic on 2..3 samples",
@@ -18,7 +19,8 @@ META = dict(
              "them (geometry of atan2; the solver proves the combination and the wrapping)",
              "antipodal neighbours (zero vector)", "complex64 accumulation precision", "pandas/DataFrame plumbing of "
              "interpolate_dataframe_time (object columns are skipped by the function itself) and SpaceTimePoint/Track "
-             "object construction", "interpolate_at_points / interpolate_track_data_arrray (n-d track interpolation)"],
+             "object construction", "interpolate_at_points: one track point, data of rank 2..3 (time, [latitude,] "
+             "longitude); interpolate_dataset (geometry -> track conversion, pandas) not run"],
     trusted_base=["symx engine", "x % p: fresh integer k with 0 <= x-k*p < p", "atan2/cos/sin uninterpreted"],
     assumptions=["periodic grid strictly increasing within one period, bins narrower than half a period"],
 )
@@ -187,6 +189,92 @@ def case_interpolate_periodic(ctx, n, discont, left_right):
     ctx.check(ctx.And(ctx.le(lo, got), ctx.lt(got, hi)), "D-IP.window", info=f"result in [{lo},{hi})")
 
 
+def case_at_points(ctx, n, m, nlat=1, direction=False, tt_const=None):
+    """gridded data (time, [latitude,] longitude) interpolated at one track point whose longitude is `m` periods plus
+    u away from the grid start (so it can fall into the bin spanning the antimeridian): multilinear between the
+    cyclic longitude neighbours and the time (and latitude) neighbours; x and x+360 agree; never missing.
+    direction=True: a *direction* variable (periodic data) - result is the angle of the weighted unit-vector sum."""
+    C.shim_modules(ctx)
+    import xarray
+    from ocean_science_utilities.interpolate.dataset import interpolate_at_points
+    ctx.concretise_mods = True
+    d = _pgrid(ctx, n, "lon")
+    u = ctx.real("u")
+    ctx.assume(ctx.And(ctx.le(0, u), ctx.lt(u, 360)))
+    x = d[0] + 360 * m + u
+    if tt_const is None:
+        tt = ctx.real("tt")
+        ctx.assume(ctx.And(ctx.lt(0, tt), ctx.lt(tt, 1)))
+    else:
+        tt = ctx.frac(*tt_const)
+    o = object if ctx.mode == "sym" else float
+    name = "meanDirection" if direction else "v"
+    tgrid = np.array([SR(0), SR(1)], dtype=object) if ctx.mode == "sym" else np.array([0.0, 1.0])
+    if nlat == 1:
+        v = ctx.reals("v", (2, n))
+        ds = xarray.Dataset({name: xarray.DataArray(v, dims=("time", "longitude"),
+                                                    coords={"time": tgrid, "longitude": d})})
+        points = lambda lon: {"time": np.array([tt, tt], dtype=o), "longitude": np.array([lon, lon + 360], dtype=o)}
+        corner = lambda it, k: v[it, k]
+        wlat = [(None, 1)]
+    else:
+        v = ctx.reals("v", (2, 2, n))
+        la = ctx.real("la")
+        ctx.assume(ctx.And(ctx.lt(0, la), ctx.lt(la, 1)))
+        lgrid = np.array([SR(0), SR(1)], dtype=object) if ctx.mode == "sym" else np.array([0.0, 1.0])
+        ds = xarray.Dataset({name: xarray.DataArray(v, dims=("time", "latitude", "longitude"),
+                                                    coords={"time": tgrid, "latitude": lgrid, "longitude": d})})
+        points = lambda lon: {"time": np.array([tt, tt], dtype=o), "latitude": np.array([la, la], dtype=o),
+                              "longitude": np.array([lon, lon + 360], dtype=o)}
+        wlat = [(0, 1 - la), (1, la)]
+        corner = None
+    # the expected cyclic bin is fixed (path fork) before the code runs: its wrap counts are then determined
+    xw = d[0] + u
+    k = _cyclic_bracket(ctx, d, xw)
+    k1 = (k + 1) % n
+    width = (d[k1] + (360 if k == n - 1 else 0)) - d[k]
+    t = (xw - d[k]) / width
+    kw = dict(periodic_data={name: (360, 360)}) if direction else {}
+    out = ctx.noraise("D-AP.noraise", lambda: interpolate_at_points(ds, points(x), independent_variable="time",
+                                                                    periodic_coordinates={"longitude": 360}, **kw))
+    got = out[name].values
+    log = list(ctx.atan2_log) if ctx.mode == "sym" else None
+    ctx.reach("D-AP")
+    terms = []
+    for it, wt in ((0, 1 - tt), (1, tt)):
+        for il, wl in wlat:
+            for kk, wk in ((k, 1 - t), (k1, t)):
+                val = v[it, kk] if il is None else v[it, il, kk]
+                terms.append((wt * wl * wk, val))
+    ctx.check(ctx.Not(ctx.isnan(got[0])), "D-AP.defined", info="no longitude is out of range")
+    if not direction:
+        ref = sum(w * val for w, val in terms)
+        ctx.check(ctx.eq(got[0], ref), "D-AP.value", info="multilinear between the cyclic neighbours incl. the wrap bin",
+                  div_uf=True)
+        ctx.check(ctx.eq(got[1], got[0]), "D-AP.shift", info="lon and lon+360 give equal results", div_uf=True)
+    else:
+        torad = np.pi * 2 / 360
+        atoms = [f(val * torad) for _, val in terms for f in (ctx.cos, ctx.sin)]
+        re = sum(w * ctx.cos(val * torad) for w, val in terms)
+        im = sum(w * ctx.sin(val * torad) for w, val in terms)
+        ctx.check(ctx.implies(ctx.Not(ctx.isnan(got[0])), ctx.And(ctx.le(0, got[0]), ctx.lt(got[0], 360))),
+                  "D-AP.dir.range", info="direction variables are returned in [0,360)")
+        if ctx.mode == "sym":
+            # the code's own angle() call for target 0: its arguments are the weighted unit-vector sums (the code
+            # divides by the weight sum, which is identically 1), its result is what gets wrapped. Splitting the claim
+            # this way keeps atan2 uninterpreted without asking z3 for congruence over a nonlinear identity.
+            Y, X, R = log[0]
+            ctx.check(ctx.And(ctx.eq(ctx.value(Y), im), ctx.eq(ctx.value(X), re)), "D-AP.dir.angle",
+                      info="arguments of angle() == weighted sums of sin / cos of the corner values", timeout=200000,
+                      abstract=[t] + atoms)
+            ang = R * 360 / np.pi / 2
+        else:
+            ang = ctx.atan2(im, re) * 360 / np.pi / 2
+        ctx.check(ctx.implies(ctx.Not(ctx.isnan(got[0])), ctx.is_multiple(got[0] - ang, 360)), "D-AP.dir.angle",
+                  info="angle of the weighted unit-vector sum of the corner values (mod 360)")
+        ctx.check(ctx.implies(ctx.Not(ctx.isnan(got[0])), ctx.eq(got[1], got[0])), "D-AP.shift", div_uf=True)
+
+
 def cases(tier):
     cs = []
     q = tier == "quick"
@@ -209,4 +297,13 @@ def cases(tier):
     for n in (2, 3):
         add("case_interpolate_periodic", f"ip_direction_n{n}", n=n, discont=360, left_right=False)
         add("case_interpolate_periodic", f"ip_longitude_track_n{n}", n=n, discont=None, left_right=True)
+    for n in ([3] if q else [3, 4]):
+        for m in ((0, -2) if q else (0, 1, -2)):
+            add("case_at_points", f"atpoints_n{n}_m{m}", n=n, m=m, opts=dict(weight=30))
+    add("case_at_points", "atpoints_lat_n3", n=3, m=-1, nlat=2, opts=dict(weight=60))
+    add("case_at_points", "atpoints_direction_n3_t14", n=3, m=1, direction=True, tt_const=(1, 4), opts=dict(weight=30))
+    add("case_at_points", "atpoints_direction_n3_t34", n=3, m=-2, direction=True, tt_const=(3, 4), opts=dict(weight=30))
+    if not q:
+        add("case_at_points", "atpoints_direction_n3", n=3, m=1, direction=True,
+            opts=dict(weight=100, check_timeout_ms=200000, case_timeout_s=1700))
     return cs
